@@ -8,6 +8,7 @@ from .c12 import params_of
 
 PROP = "C18"
 MONITORS = ("WF",)
+HOSTILE = ('special',)
 ANCHORS = [("utils/dataclass.py", "register_dataclass_type_with_jax_tree_util"),
            ("factor.py", "ConjugateFactor.to_dict"), ("factor.py", "ConjugateFactor.from_dict"),
            ("factor.py", "OneRankFactor.to_dict"), ("factor.py", "LinearFactor.to_dict"),
